@@ -427,3 +427,4 @@ def check(facts, rep, tier, cfg):
     rep.rule("C14.S7", "no new process-wide mutable state (static cell / lock / once-cell) in the files this property is anchored in")
     import whomay
     whomay.check_new_statics(facts, rep, "C14.S7", "C14")
+    whomay.check_new_trait_methods(facts, rep, "C14.S7", "C14")
